@@ -248,6 +248,8 @@ def plan(seed, tier="quick", index=0):
         rdesc = {"kind": rk, "hash": hashlib.sha256(b"rcpt%d/%d" % (seed & 0xFFFFFFFF, s)).hexdigest()}
         if rk == "identity":
             rdesc["who"] = rng.choice([x for x in range(n_id) if x != who])
+            if not clean and rng.random() < 0.1:
+                rdesc["who"] = who  # consolidation: the sender pays its own address
             if clean and idents[rdesc["who"]]["kind"] == "multisig":
                 rdesc = {"kind": "p2wpkh", "hash": rdesc["hash"]}  # a bare-multisig recipient is a raw script
         if rk == "pubkey":
@@ -258,6 +260,8 @@ def plan(seed, tier="quick", index=0):
             change = {"kind": ck, "hash": hashlib.sha256(b"chg%d/%d" % (seed & 0xFFFFFFFF, s)).hexdigest()}
             if ck == "identity":
                 change["who"] = rng.randrange(n_id)
+                if not clean and rk == "identity" and rng.random() < 0.25:
+                    change["who"] = rdesc["who"]  # change address = recipient address
                 if clean and idents[change["who"]]["kind"] == "multisig":
                     change = {"kind": "p2pkh", "hash": change["hash"]}
         frac = rng.choice([1.0, 0.5]) if clean else rng.choice([1.0, 1.0, 0.5, 0.25, 0.1, 0.9, 0.3, 1 / 3, 0.999, 0.0001, rng.random()])
